@@ -151,5 +151,6 @@ def decode_events(ev):
         elif k == 'f':
             out.append(('f', FLAG_NAME.get(v[0], v[0])))
         else:
-            out.append(('s', sum(b << (8 * i) for i, b in enumerate(v))))
+            u = sum(b << (8 * i) for i, b in enumerate(v))
+            out.append(('s', u - (1 << (8 * len(v))) if v and v[-1] >= 128 else u))     # signed: width independent
     return out
